@@ -14,7 +14,7 @@ import z3
 from pvc.contract import Call, Contract, LoopInv
 from pvc.interp import NTInst, PyDict, PyList
 from pvc.models import floor_f
-from pvc.sym import PyRaise, SInt, SObj, SOpaque, SReal, SSeq, Unsupported, to_int, to_real, wrap
+from pvc.sym import PyRaise, SInt, SNum, SObj, SOpaque, SReal, SSeq, Unsupported, to_int, to_real, wrap
 
 R = z3.RealSort()
 St = z3.DeclareSort("St")
@@ -143,14 +143,14 @@ def make_filter(I, tag="mf", control_size=None):
     mod = I.load_module("formak.runtime")
     cls = I.module_attr(mod, "ManagedFilter")
     max_dt = P.fresh_real("max_dt_sec")
-    config = SObj("Config", {"max_dt_sec": SReal(max_dt)}, "config")
+    config = SObj("Config", {"max_dt_sec": SNum(max_dt)}, "config")
     cs = control_size if control_size is not None else SInt(P.fresh_int("control_size"))
     impl = SObj("Impl", {"config": config, "control_size": cs}, "impl")
     obj = SObj(
         cls,
         {
             "_impl": impl,
-            "current_time": SReal(P.fresh_real("t0")),
+            "current_time": SNum(P.fresh_real("t0")),
             "state": SOpaque(P.fresh_const("st0", St), "St"),
             "covariance": SOpaque(P.fresh_const("cov0", Cov), "Cov"),
             "calibration_map": None,
@@ -248,7 +248,7 @@ class ProcessModelSteps(Contract):
 
         P.ghost["monitor"] = monitor
         old = dict(obj.fields)
-        return Call([obj, SReal(t1), ctl], {}, obj=obj, old=old, t0=t0, t1=t1, max_dt=max_dt, trace0=tr0, s0=obj.fields["state"].z, c0=obj.fields["covariance"].z, ctl=ctl.z)
+        return Call([obj, SNum(t1), ctl], {}, obj=obj, old=old, t0=t0, t1=t1, max_dt=max_dt, trace0=tr0, s0=obj.fields["state"].z, c0=obj.fields["covariance"].z, ctl=ctl.z)
 
     def post(self, I, call, outcome):
         P = I.path
@@ -369,7 +369,7 @@ class TickFold(Contract):
 
         def havoc(I, tag):
             obj = self._obj
-            obj.fields["current_time"] = SReal(I.path.fresh_real(f"time_{tag}"))
+            obj.fields["current_time"] = SNum(I.path.fresh_real(f"time_{tag}"))
             obj.fields["state"] = SOpaque(I.path.fresh_const(f"state_{tag}", St), "St")
             obj.fields["covariance"] = SOpaque(I.path.fresh_const(f"cov_{tag}", Cov), "Cov")
 
@@ -396,7 +396,7 @@ class TickFold(Contract):
             return SObj(
                 SR,
                 {
-                    "timestamp": SReal(ts(i)),
+                    "timestamp": SNum(ts(i)),
                     "sensor_key": SOpaque(keyf(i), "SensorKey"),
                     "_data": SOptionalData(nodata(i), SOpaque(dataf(i), "ReadingData")),
                     "kwargs": KwargsV(kwf(i)),
@@ -410,7 +410,7 @@ class TickFold(Contract):
         t0 = obj.fields["current_time"].z
         fold = FoldSpec(P, t0, s0, c0, max_dt, ctl_z(control), ts, keyf, eff)
         old = dict(obj.fields)
-        return Call([obj, SReal(t_out)], {"control": control, "readings": readings}, obj=obj, old=old, fold=fold, n=n, t_out=t_out, max_dt=max_dt, control=control)
+        return Call([obj, SNum(t_out)], {"control": control, "readings": readings}, obj=obj, old=old, fold=fold, n=n, t_out=t_out, max_dt=max_dt, control=control)
 
     def post(self, I, call, outcome):
         P = I.path
@@ -459,7 +459,7 @@ class ManagedFilterInit(Contract):
         cls = I.module_attr(mod, "ManagedFilter")
         obj = SObj(cls, {}, "mf")
         impl = SObj("Impl", {}, "impl")
-        t0 = SReal(P.fresh_real("start_time"))
+        t0 = SNum(P.fresh_real("start_time"))
         st, cov, cm = SOpaque(z3.Const("state0", z3.DeclareSort("PyEst")), "PyEst"), SOpaque(z3.Const("cov0", z3.DeclareSort("PyEst")), "PyEst"), SObj("Cal", {}, "calibration_map")
         return Call([obj, impl, t0, st, cov], {"calibration_map": cm}, obj=obj, impl=impl, t0=t0, st=st, cov=cov, cm=cm)
 
@@ -491,7 +491,7 @@ class StampedReadingInit(Contract):
         mod = I.load_module("formak.runtime")
         cls = I.module_attr(mod, "StampedReading")
         obj = SObj(cls, {}, "reading")
-        ts = SReal(P.fresh_real("timestamp"))
+        ts = SNum(P.fresh_real("timestamp"))
         data = SObj("Data", {}, "data") if self.with_data else None
         val = SReal(P.fresh_real("v"))
         kw = {"_data": data} if self.with_data else {"v": val}
